@@ -230,6 +230,11 @@ REQ = {
     "nf4": _R(lambda E: E.gs.norm_factor(4), repeat=1, fresh=True),
     "ov2": _R(lambda E: E.gs.overlap(2), model=(2, 2)),
     "ev21": _R(lambda E: E.gs.expectation_value(2, 1)),
+    # the same cached method called with keywords, and with the two integer
+    # arguments swapped (a member cache keyed on an ambiguous argument tuple
+    # would serve the wrong entry)
+    "ev21kw": _R(lambda E: E.gs.expectation_value(order=2, n_particles=1)),
+    "ev12": _R(lambda E: E.gs.expectation_value(1, 2), model=(2, 2)),
     "prec1": _R(lambda E: E.isr.precursor(1, "ph", "ket", "ia"), "ket",
                 tg="ia", explicit="ia"),
     "prec2b": _R(lambda E: E.isr.precursor(2, "ph", "bra", "ia"), "bra",
@@ -282,8 +287,9 @@ REQ = {
 }
 
 ALPHABET = ["e2", "e3", "psi1k", "psi2b", "nf2", "ov2", "ev21", "prec1",
-            "gen53", "get3", "getrev", "getspin", "t22", "amp2"]
-PROBES = ["e2", "e3", "psi1k", "psi2b", "nf2", "nf4", "ov2", "ev21", "prec1",
+            "gen53", "get3", "getrev", "getspin", "t22", "amp2", "ev21kw"]
+PROBES = ["e2", "e3", "psi1k", "psi2b", "nf2", "nf4", "ov2", "ev21", "ev12",
+          "prec1",
           "prec2b", "is2", "ovp2", "m1", "mvp1", "amp1", "amp2", "amp2s",
           "t22", "t22p", "t22nf", "p02", "gen53", "get3", "spin_e2",
           "itmd_spin"]
